@@ -127,18 +127,29 @@ func SourceFileFunction(env *Zlisp, name string, args []Sexp) (Sexp, error) {
 
 // helper for SourceFileFunction recursion
 func (env *Zlisp) sourceItem(item Sexp) error {
+	return env.sourceItemAt(item, 0)
+}
+
+func (env *Zlisp) sourceItemAt(item Sexp, depth int) error {
+	if depth > 1000 {
+		// e.g. an array that contains itself
+		return fmt.Errorf("source: file lists nested more than 1000 deep")
+	}
 	switch t := item.(type) {
 	case *SexpArray:
 		for _, v := range t.Val {
-			if err := env.sourceItem(v); err != nil {
+			if err := env.sourceItemAt(v, depth+1); err != nil {
 				return err
 			}
 		}
 	case *SexpPair:
 		expr := item
 		for expr != SexpNull {
-			list := expr.(*SexpPair)
-			if err := env.sourceItem(list.Head); err != nil {
+			list, isPair := expr.(*SexpPair)
+			if !isPair {
+				return fmt.Errorf("source: Expected a proper list of files, found a dotted pair ending in %T", expr)
+			}
+			if err := env.sourceItemAt(list.Head, depth+1); err != nil {
 				return err
 			}
 			expr = list.Tail
